@@ -96,7 +96,7 @@ func RectPair(r *hx.Rng) (a, b [4]int64) {
 		}
 	}
 	a = [4]int64{int64(r.Range(-8, 8)), int64(r.Range(-8, 8)), size(), size()}
-	switch r.Intn(9) {
+	switch r.Intn(11) {
 	case 0:
 		b = a
 	case 1: // nested (possibly touching edges)
@@ -139,6 +139,19 @@ func RectPair(r *hx.Rng) (a, b [4]int64) {
 		b = [4]int64{a[0] - (1 << 30), a[1] - (1 << 30), 1 << 31, 1 << 31}
 		if r.Bool() {
 			b[0] = a[0]
+		}
+	case 9, 10: // adjacent along one axis at distance -1, 0 or +1, overlapping on the other axis; sizes of every parity
+		w, h := int64(r.Range(1, 9)), int64(r.Range(1, 9))
+		a[2], a[3] = int64(r.Range(1, 9)), int64(r.Range(1, 9))
+		d := int64(r.Range(-1, 1))
+		b = [4]int64{a[0] + a[2] + d, a[1] + int64(r.Range(-2, 2)), w, h}
+		switch r.Intn(4) {
+		case 1:
+			b = [4]int64{a[0] - w - d, a[1] + int64(r.Range(-2, 2)), w, h}
+		case 2:
+			b = [4]int64{a[0] + int64(r.Range(-2, 2)), a[1] + a[3] + d, w, h}
+		case 3:
+			b = [4]int64{a[0] + int64(r.Range(-2, 2)), a[1] - h - d, w, h}
 		}
 	default:
 		b = [4]int64{int64(r.Range(-8, 8)), int64(r.Range(-8, 8)), size(), size()}
